@@ -4,6 +4,8 @@ C09 — distinct selections never share a Go type; each operation's types are st
 import Genq.Model.TypeMap
 import Genq.Extracted.Inventory
 import Genq.Proofs.TypeNames
+import Genq.Model.ConvSkel
+import Genq.Extracted.Conv
 namespace Genq.TypeMap
 
 mutual
@@ -277,3 +279,16 @@ example : ¬ "GetA".toList <+: "GetB".toList ∧ ¬ "GetB".toList <+: "GetA".toL
     1 < (walk "GetA".toList [("Query".toList, "me".toList)] .default).length := by decide
 
 end Genq.Names
+
+namespace Genq
+
+/-- **C09_naming_tie** — names.go typeNameParts / nextPrefix / makeTypeName / makeLongTypeName as Model/TypeNames.lean transcribes them, as in /repo now (regenerated on every run), equal to the copy the model was written from -/
+theorem C09_naming_tie : Extracted.namingSkeleton = ConvSkel.namingSkeleton := rfl
+
+/-- **C09_typemap_tie** — getType / addType: look up, compare GraphQL type and selection, insert, as in /repo now (regenerated on every run), equal to the copy the model was written from -/
+theorem C09_typemap_tie : Extracted.typeMapSkeleton = ConvSkel.typeMapSkeleton := rfl
+
+/-- **C09_selectionsMatch_tie** — selectionsMatch, as in /repo now (regenerated on every run), equal to the copy the model was written from -/
+theorem C09_selectionsMatch_tie : Extracted.selectionsMatchSkeleton = ConvSkel.selectionsMatchSkeleton := rfl
+
+end Genq
